@@ -131,6 +131,13 @@ theorem tournament_winner_is_minimal (l : List PopEntry) (b : PopEntry) (h : min
     b ∈ l ∧ ∀ x ∈ l, x.score.lt b.score = false :=
   minByScore_spec h
 
+/-- … and it is the **first** such member (Python's `min` keeps the first minimum): every earlier member of the tournament
+    is strictly worse. -/
+theorem tournament_winner_is_first_minimum (l : List PopEntry) (b : PopEntry) (h : minByScore l = some b) :
+    ∃ i : Nat, l[i]? = some b ∧ (∀ (j : Nat) (x : PopEntry), j < i → l[j]? = some x → b.score.lt x.score = true) ∧
+      ∀ x ∈ l, x.score.lt b.score = false :=
+  minByScore_first h
+
 /-- **Selection deep-copies.**  With tournament size `k > 0`, the selected population has `n_pop` members; every member
     is a *new* object (allocated by this call), the new objects are pairwise distinct, no pre-existing object is
     modified, each member carries the score of some member of the old population, and — if the old population's scores
@@ -350,6 +357,25 @@ theorem cnot_positions_characterised (d : DagView) (e e' : Edge) :
     exact ⟨⟨ha1, by simpa using ha2⟩, ⟨hb1, by simpa using hb2⟩, by simpa using hb3⟩
   · rintro ⟨⟨ha1, ha2⟩, ⟨hb1, hb2⟩, hb3⟩
     exact ⟨e, ⟨ha1, by simpa using ha2⟩, e', ⟨⟨hb1, by simpa using hb2⟩, by simpa using hb3⟩, rfl, rfl⟩
+
+/-- `_select_possible_measurement_position`: exactly the pairs (admissible emitter edge, admissible photon edge) that are
+    not incompatible, in the nested order of the two `edge_dict` lists. -/
+theorem measurement_positions_characterised (d : DagView) (e e' : Edge) :
+    (e, e') ∈ d.selectPossibleMeasurementPosition ↔
+      (e ∈ d.eEdges ∧ d.opOf e.dst ≠ .output ∧ d.opOf e.dst ≠ .measCnotReset ∧ d.opOf e.src ≠ .input ∧
+        d.opOf e.src ≠ .measCnotReset) ∧
+      (e' ∈ d.pEdges ∧ d.opOf e'.dst ≠ .measCnotReset ∧ d.opOf e'.src ≠ .input) ∧
+      d.incompatible e e' = false := by
+  simp only [DagView.selectPossibleMeasurementPosition, List.mem_flatMap, List.mem_map, List.mem_filter, Prod.mk.injEq]
+  constructor
+  · rintro ⟨a, ⟨ha1, ha2⟩, b, ⟨⟨hb1, hb2⟩, hb3⟩, rfl, rfl⟩
+    simp only [Bool.and_eq_true, bne_iff_ne, ne_eq, decide_eq_true_eq] at ha2 hb2
+    exact ⟨⟨ha1, by simpa using ha2.1.1.1, by simpa using ha2.1.1.2, by simpa using ha2.1.2, by simpa using ha2.2⟩,
+      ⟨hb1, by simpa using hb2.1, by simpa using hb2.2⟩, by simpa using hb3⟩
+  · rintro ⟨⟨ha1, ha2, ha3, ha4, ha5⟩, ⟨hb1, hb2, hb3⟩, hb4⟩
+    refine ⟨e, ⟨ha1, ?_⟩, e', ⟨⟨hb1, ?_⟩, by simpa using hb4⟩, rfl, rfl⟩
+    · simp [ha2, ha3, ha4, ha5]
+    · simp [hb2, hb3]
 
 /-! ## 5b. Transformation probabilities -/
 
